@@ -37,25 +37,88 @@ def lp_gain(mdp):
     return {"status": 0, "g": [fj(x) for x in r.x[:n]]}
 
 
-def plan_step(planner, mdpcase, case, pl):
-    mdp = build_mdp(mdpcase, explicit_lists=case.get("explicit_lists", False))
+def build_c16(mdpcase, case):
+    """QuickTabularMDP from a gen_mdp case.  Options (case["opts"]):
+       shared   -- the caller's objects are SHARED and MUTABLE: actions(s) returns one list object for all states with
+                   the same action set, next_state_dist returns one DictDistribution object for all identical rows
+                   (and the same object on every call); a snapshot of them is compared after planning
+       int_typed -- integral numbers are passed as Python ints (rewards, probability 1, discount rate 1)"""
+    from msdm.core.mdp.quickmdp import QuickTabularMDP
+    from msdm.core.distributions import DictDistribution
+    opts = case.get("opts", {})
+    it = opts.get("int_typed", False)
+
+    def num(x):
+        f = fl(x)
+        return int(f) if (it and f == int(f)) else f
+    dists, trans = {}, {}
+    for k, row in mdpcase["trans"].items():
+        s, a = map(int, k.split(","))
+        key = tuple((ns, p) for ns, p in row) if opts.get("shared") else (s, a)
+        if key not in dists:
+            dists[key] = DictDistribution({ns: num(p) for ns, p in row})
+        trans[(s, a)] = dists[key]
+    rew = {}
+    for k, r in mdpcase["reward"].items():
+        s, a, ns = map(int, k.split(","))
+        rew[(s, a, ns)] = num(r)
+    if opts.get("shared"):
+        pool = {}
+        actions = [pool.setdefault(tuple(a), list(a)) for a in mdpcase["actions"]]
+    else:
+        actions = [tuple(a) for a in mdpcase["actions"]]
+    absorbing = list(mdpcase["absorbing"])
+    init = DictDistribution({s: num(p) for s, p in mdpcase["init"]})
+    zero = 0 if it else 0.0
+    mdp = QuickTabularMDP(
+        next_state_dist=lambda s, a: trans[(s, a)],
+        reward=lambda s, a, ns: rew.get((s, a, ns), zero),
+        actions=lambda s: actions[s],
+        initial_state_dist=init,
+        is_absorbing=lambda s: absorbing[s],
+        discount_rate=num(mdpcase["gamma"]),
+    )
+    if case.get("explicit_lists", False):
+        mdp._state_list = tuple(range(mdpcase["n"]))
+        mdp._action_list = tuple(range(mdpcase["nA"]))
+
+    def snapshot():
+        return ([list(a) for a in actions], {k: sorted(dict(d).items()) for k, d in trans.items()},
+                sorted(dict(init).items()), dict(rew), list(absorbing))
+    return mdp, snapshot
+
+
+def extract(r, sl, al):
+    return {
+        "g": [fj(r.state_gain[s]) for s in sl],
+        "Qg": [[fj(r.action_gain[s][a]) for a in al] for s in sl],
+        "h": [fj(r.state_value[s]) for s in sl],
+        "Qh": [[fj(r.action_value[s][a]) for a in al] for s in sl],
+        "pi": [[fj(r.policy[s][a]) for a in al] for s in sl],
+        "initial_gain": fj(r.initial_gain), "initial_value": fj(r.initial_value),
+        "converged": bool(r.converged), "iterations": int(r.iterations)}
+
+
+def plan_step(planner, mdpcase, case, pl, keep=None):
+    import numpy as np
+    mdp, snapshot = build_c16(mdpcase, case)
     sl, al = list(mdp.state_list), list(mdp.action_list)
     res = {"state_list": sl, "action_list": al,
            "absorbing_vec": [bool(x) for x in mdp.absorbing_state_vec]}
+    before = snapshot()
+    mats = [np.array(mdp.transition_matrix).tobytes(), np.array(mdp.reward_matrix).tobytes(), np.array(mdp.action_matrix).tobytes()]
     try:
         r = planner.plan_on(mdp)
-        res["out"] = {
-            "g": [fj(r.state_gain[s]) for s in sl],
-            "Qg": [[fj(r.action_gain[s][a]) for a in al] for s in sl],
-            "h": [fj(r.state_value[s]) for s in sl],
-            "Qh": [[fj(r.action_value[s][a]) for a in al] for s in sl],
-            "pi": [[fj(r.policy[s][a]) for a in al] for s in sl],
-            "initial_gain": fj(r.initial_gain), "initial_value": fj(r.initial_value),
-            "converged": bool(r.converged), "iterations": int(r.iterations)}
+        res["out"] = extract(r, sl, al)
+        if keep is not None:
+            keep.append((r, sl, al))
     except BaseException as e:
         if isinstance(e, (KeyboardInterrupt, SystemExit)):
             raise
         res["out"] = {"error": type(e).__name__ + ": " + str(e)[:300]}
+    # the caller's problem must be left as it was
+    res["problem_mutated"] = bool(before != snapshot() or mats != [np.array(mdp.transition_matrix).tobytes(),
+                                  np.array(mdp.reward_matrix).tobytes(), np.array(mdp.action_matrix).tobytes()])
     if mdpcase["gamma"] == "1" and pl.get("lp", True):
         try:
             res["lp"] = lp_gain(mdp)
@@ -68,10 +131,13 @@ def plan_step(planner, mdpcase, case, pl):
 
 def one(case, pl):
     """ONE planner object plans on case["mdp"] and then, in order, on every MDP of case["more"]
-    (planner reuse across problems is ordinary usage: parameter sweeps)"""
+    (planner reuse across problems is ordinary usage: parameter sweeps).  Afterwards the FIRST result object is
+    read again (stale-result check) and, with opts.fresh_repeat, the first problem is planned once more with a
+    fresh planner object in the same process (module/class-level state)."""
     from msdm.algorithms.multichainpolicyiteration import MultichainPolicyIteration
     planner = MultichainPolicyIteration(max_iterations=int(case["max_iterations"]))
-    res = plan_step(planner, case["mdp"], case, pl)
+    keep = []
+    res = plan_step(planner, case["mdp"], case, pl, keep)
     if case.get("more"):
         res["more"] = []
         for m in case["more"]:
@@ -81,6 +147,18 @@ def one(case, pl):
                 if isinstance(e, (KeyboardInterrupt, SystemExit)):
                     raise
                 res["more"].append({"error": type(e).__name__ + ": " + str(e)[:300]})
+    if keep and "error" not in res["out"]:
+        r, sl, al = keep[0]
+        try:
+            res["first_result_requeried_equal"] = bool(extract(r, sl, al) == res["out"])
+        except BaseException as e:
+            if isinstance(e, (KeyboardInterrupt, SystemExit)):
+                raise
+            res["first_result_requeried_equal"] = False
+            res["requery_error"] = type(e).__name__ + ": " + str(e)[:200]
+        if case.get("opts", {}).get("fresh_repeat"):
+            again = plan_step(MultichainPolicyIteration(max_iterations=int(case["max_iterations"])), case["mdp"], case, dict(pl, lp=False))
+            res["fresh_repeat_equal"] = bool(again.get("out") == res["out"] and again["state_list"] == res["state_list"])
     return res
 
 
